@@ -792,7 +792,6 @@ func ConcPaths(fn *ssa.Function, cfg ConcCfg) (seqs []string, truncated bool) {
 	return seqs, truncated
 }
 
-
 // cellOf resolves an address to the local variable cell it denotes on this path: a plain local, or - with
 // IterClosures - a local captured by function literals, reached directly or through a literal's free variable.
 func cellOf(st *ConcState, addr ssa.Value) *ssa.Alloc {
@@ -836,7 +835,6 @@ func intConst(k int64, t types.Type) ssa.Value {
 	intConsts[key] = c
 	return c
 }
-
 
 var reachMemo = map[*ssa.Function][][]bool{}
 
